@@ -1,6 +1,7 @@
 import NemoVerif.Drive.Common
 import NemoVerif.Models.V1Interp
 import NemoVerif.Models.V1Struct
+import NemoVerif.Generated.LlmFlowsV1
 
 namespace NemoVerif.Drive.C14
 open Lean NemoVerif.Drive NemoVerif.V1Interp NemoVerif.V1Struct
@@ -12,6 +13,7 @@ def vOfJson (j : Json) : Except String V :=
   | _ =>
     if let .ok v := j.getObjVal? "i" then do pure (.int (← v.getInt?))
     else if let .ok v := j.getObjVal? "s" then do pure (.str (← v.getStr?))
+    else if let .ok v := j.getObjVal? "L" then do pure (.strs (← (← v.getArr?).toList.mapM (·.getStr?)))
     else throw "bad V"
 
 def vToJson : V → Json
@@ -19,6 +21,7 @@ def vToJson : V → Json
   | .bool b => .bool b
   | .int i => Json.mkObj [("i", Json.num (JsonNumber.fromInt i))]
   | .str s => Json.mkObj [("s", .str s)]
+  | .strs l => Json.mkObj [("L", Json.arr (l.map Json.str).toArray)]
 
 def ctxOfJson (j : Json) : Except String Ctx := do
   let a ← j.getArr?
@@ -37,6 +40,13 @@ partial def exprOfJson (j : Json) : Except String Expr := do
   if let .ok v := j.getObjVal? "lit" then pure (.lit (← vOfJson v))
   else if let .ok v := j.getObjVal? "var" then pure (.var (← v.getStr?))
   else if let .ok v := j.getObjVal? "not" then pure (.not (← exprOfJson v))
+  else if let .ok v := j.getObjVal? "len" then pure (.len (← exprOfJson v))
+  else if let .ok v := j.getObjVal? "idx" then
+    let a ← v.getArr?
+    if h : a.size = 2 then pure (.index (← exprOfJson a[0]) (← exprOfJson a[1])) else throw "bad idx"
+  else if let .ok v := j.getObjVal? "isnone" then
+    let a ← v.getArr?
+    if h : a.size = 2 then pure (.isNone (← exprOfJson a[0]) (← a[1].getBool?)) else throw "bad isnone"
   else if let .ok v := j.getObjVal? "bin" then
     let a ← v.getArr?
     if h : a.size = 3 then pure (.bin (← opOfString (← a[0].getStr?)) (← exprOfJson a[1]) (← exprOfJson a[2]))
@@ -62,6 +72,8 @@ def elemOfJson (j : Json) : Except String Elem := do
   | "break" => pure (.breakE (optIntJ j "o"))
   | "continue" => pure (.continueE (optIntJ j "o"))
   | "flow" => pure (.flow (← (← j.getObjVal? "name").getStr?))
+  | "flowE" => pure (.flowE (← exprOfJson (← j.getObjVal? "e")))
+  | "event" => pure (.event (← (← j.getObjVal? "ty").getStr?) (← ctxOfJson (← j.getObjVal? "props")))
   | s => throw s!"bad elem {s}"
 
 def jInt (i : Int) : Json := Json.num (JsonNumber.fromInt i)
@@ -72,6 +84,9 @@ partial def exprToJson : Expr → Json
   | .lit v => Json.mkObj [("lit", vToJson v)]
   | .var n => Json.mkObj [("var", .str n)]
   | .not e => Json.mkObj [("not", exprToJson e)]
+  | .len e => Json.mkObj [("len", exprToJson e)]
+  | .index e i => Json.mkObj [("idx", Json.arr #[exprToJson e, exprToJson i])]
+  | .isNone e n => Json.mkObj [("isnone", Json.arr #[exprToJson e, .bool n])]
   | .bin op a b =>
     let s := match op with
       | .eq => "eq" | .ne => "ne" | .lt => "lt" | .le => "le" | .gt => "gt" | .ge => "ge"
@@ -88,6 +103,8 @@ def elemToJson : Elem → Json
   | .breakE o => Json.mkObj [("t", "break"), ("o", jOptInt o)]
   | .continueE o => Json.mkObj [("t", "continue"), ("o", jOptInt o)]
   | .flow n => Json.mkObj [("t", "flow"), ("name", .str n)]
+  | .flowE e => Json.mkObj [("t", "flowE"), ("e", exprToJson e)]
+  | .event ty ps => Json.mkObj [("t", "event"), ("ty", .str ty), ("props", ctxToJson ps)]
 
 def getBoolD (j : Json) (k : String) (d : Bool) : Bool :=
   match j.getObjVal? k with
@@ -98,7 +115,11 @@ def cfgOfJson (j : Json) : Except String FlowCfg := do
   let id ← (← j.getObjVal? "id").getStr?
   let es ← (← (← j.getObjVal? "elems").getArr?).toList.mapM elemOfJson
   pure { id, elems := es, isSubflow := getBoolD j "sub" false, isExtension := getBoolD j "ext" false,
-         isInterruptible := getBoolD j "intr" true, allowMultiple := getBoolD j "multi" false }
+         isInterruptible := getBoolD j "intr" true, allowMultiple := getBoolD j "multi" false,
+         prio := (match j.getObjVal? "prio" with | .ok v => (v.getNat?.toOption.getD 100) | _ => 100),
+         triggers := (match j.getObjVal? "triggers" with
+           | .ok (.arr a) => a.toList.filterMap fun x => x.getStr?.toOption
+           | _ => []) }
 
 def eventOfJson (j : Json) : Except String Event := do
   let t ← (← j.getObjVal? "e").getStr?
@@ -109,7 +130,11 @@ def eventOfJson (j : Json) : Except String Event := do
   | "ctx" => pure (.contextUpdate (← ctxOfJson (← j.getObjVal? "d")))
   | "start" => pure .startAction
   | "hide" => pure .hidePrevTurn
-  | "other" => pure (.other (← (← j.getObjVal? "ty").getStr?))
+  | "other" =>
+    let ps ← match j.getObjVal? "props" with
+      | .ok v => ctxOfJson v
+      | _ => pure []
+    pure (.other (← (← j.getObjVal? "ty").getStr?) ps)
   | s => throw s!"bad event {s}"
 
 partial def progOfJson (j : Json) : Except String Prog := do
@@ -184,7 +209,12 @@ def handle (op : String) (j : Json) : Except String Json := do
     let prefixes ← match j.getObjVal? "prefixes" with
       | .ok (.arr a) => a.toList.mapM (·.getNat?)
       | _ => pure (List.range (hist.length + 1))
-    let outs := prefixes.map fun k => stepsResToJson (computeNextSteps repaired cfgs (hist.take k))
+    let config ← match j.getObjVal? "config" with
+      | .ok v => ctxOfJson v
+      | _ => pure []
+    -- "llm": true = run on the generated llm_flows.co elements (Generated/LlmFlowsV1.lean) followed by the given flows
+    let cfgs := if getBoolD j "llm" false then NemoVerif.Generated.LlmFlowsV1.flows ++ cfgs else cfgs
+    let outs := prefixes.map fun k => stepsResToJson (computeNextSteps repaired cfgs (hist.take k) config)
     pure (Json.mkObj [("res", Json.arr outs.toArray)])
   | "compile" =>
     let p ← progOfJson (← j.getObjVal? "prog")
